@@ -1,8 +1,9 @@
 // vh: the harness CLI.
-//   vh run <property> -tier quick -seed 1 -out DIR   generate histories, execute them on the real
-//        code, write DIR/<property>.trace and DIR/<property>.stats.json
-//   vh replay <property> <file>                       re-execute the op lines of one or more
-//        histories stored in <file> (text after " => " is ignored) and print "op => observed"
+//
+//	vh run <property> -tier quick -seed 1 -out DIR   generate histories, execute them on the real
+//	     code, write DIR/<property>.trace and DIR/<property>.stats.json
+//	vh replay <property> <file>                       re-execute the op lines of one or more
+//	     histories stored in <file> (text after " => " is ignored) and print "op => observed"
 package main
 
 import (
@@ -92,7 +93,12 @@ func main() {
 		for _, h := range readHistories(os.Args[3]) {
 			ex := p.New()
 			for _, op := range h {
-				fmt.Fprintf(w, "%s => %s\n", op, trace.Enc(ex.Exec(op)))
+				out, ok := drive.ExecTimed(ex, op)
+				fmt.Fprintf(w, "%s => %s\n", op, trace.Enc(out))
+				if !ok {
+					fmt.Fprintf(w, "#!violation no_reply\tthe request never produced a reply: %s\n", op)
+					break
+				}
 			}
 			for _, f := range ex.Findings() {
 				fmt.Fprintf(w, "#!violation %s\t%s\n", f[0], f[1])
